@@ -601,15 +601,19 @@ class Hist(object):
         if not cands:
             return None, None
         if queue is not None:        # receive side: what the model has queued for this socket comes first
-            for did, r in cands:
-                if did in queue and r["got"] == 0:
-                    return did, r
-            for did, r in cands:
-                if r["dst"] == dsap and r["got"] == 0:
-                    return did, r
-            for did, r in cands:
-                if r["got"] == 0:
-                    return did, r
+            # (ssap: the source address the receiver reports; identical payloads of several senders are told
+            # apart by it, so for these few octets the source is matched, not checked)
+            for same_src in (True, False):
+                pool = [(did, r) for did, r in cands if (r["src"] == ssap) == same_src]
+                for did, r in pool:
+                    if did in queue and r["got"] == 0:
+                        return did, r
+                for did, r in pool:
+                    if r["dst"] == dsap and r["got"] == 0:
+                        return did, r
+                for did, r in pool:
+                    if r["got"] == 0:
+                        return did, r
             return cands[-1]
         for did, r in cands:             # wire side: the oldest one not seen yet with these addresses
             if r["wire"] == 0 and r["dst"] == dsap and (r["src"] is None or r["src"] == ssap):
